@@ -1,1 +1,49 @@
-fn main(){}
+use asemon::common::*;
+use std::path::PathBuf;
+use std::time::Instant;
+
+fn main() {
+    let args: Vec<String> = std::env::args().collect();
+    if args.len() < 2 {
+        eprintln!("usage: asemon <PROPERTY|subcommand> [--tier quick|thorough] [--seed N] [--replay file]");
+        std::process::exit(2);
+    }
+    let prop = args[1].clone();
+    let mut tier = match std::env::var("VERIF_TIER").as_deref() {
+        Ok("thorough") => Tier::Thorough,
+        _ => Tier::Quick,
+    };
+    let mut seed: u64 = std::env::var("VERIF_SEED").ok().and_then(|s| s.trim().parse().ok()).unwrap_or(1);
+    let mut replay = None;
+    let mut threads = std::thread::available_parallelism().map(|n| n.get()).unwrap_or(8).min(16);
+    let mut i = 2;
+    let mut rest: Vec<String> = Vec::new();
+    while i < args.len() {
+        match args[i].as_str() {
+            "--tier" => {
+                i += 1;
+                tier = if args.get(i).map(|s| s.as_str()) == Some("thorough") { Tier::Thorough } else { Tier::Quick };
+            }
+            "--seed" => {
+                i += 1;
+                seed = args.get(i).and_then(|s| s.parse().ok()).unwrap_or(seed);
+            }
+            "--replay" => {
+                i += 1;
+                replay = args.get(i).map(PathBuf::from);
+            }
+            "--threads" => {
+                i += 1;
+                threads = args.get(i).and_then(|s| s.parse().ok()).unwrap_or(threads);
+            }
+            other => rest.push(other.to_string()),
+        }
+        i += 1;
+    }
+    let verif_dir = PathBuf::from(std::env::var("ASEMON_VERIF_DIR").unwrap_or_else(|_| "/verif".into()));
+    let repo_dir = PathBuf::from(std::env::var("ASEMON_REPO").unwrap_or_else(|_| "/repo".into()));
+    install_panic_hook();
+    let ctx = Ctx { prop: prop.clone(), tier, seed, verif_dir, repo_dir, start: Instant::now(), threads, replay, level: "exploration" };
+    let code = asemon::checks::run(&ctx, &rest);
+    std::process::exit(code);
+}
